@@ -9,5 +9,5 @@ python3 gen/consts_from_rust.py
 (cd lean && lake build Essential driver)
 cp /repo/Cargo.lock harness/Cargo.lock
 (cd harness && cargo build --offline && cargo build --offline --release)
-if [ -d harness-loom ]; then (cp /repo/Cargo.lock harness-loom/Cargo.lock 2>/dev/null; cd harness-loom && cargo build --offline --release) || true; fi
+if [ -d harness-loom ]; then (cd harness-loom && cargo build --offline --release) || true; fi
 echo setup done
